@@ -1,6 +1,7 @@
 """C23 — Positions follow the LSP encoding and line-ending rules (engine K)."""
 import shapes as S
 from kflow import HDef, run_k
+import docflow
 
 FUNCS = ["emmylua_parser::LineIndex::parse", "LineIndex::get_line_col", "LineIndex::get_offset",
          "LineIndex::get_line", "LineIndex::line_count"]
@@ -60,3 +61,4 @@ def run(out):
         out.fatal = "server mentions position_encoding (%s); the UTF-16 oracle may no longer apply" % adv[0]
     run_k(out, "c23", "parser", hs, jobs=14, harness_timeout=900,
           overall_timeout=1500 if tier == "quick" else 6 * 3600, mem_gb=12)
+    docflow.run_doc(out, ["doc_ranges"])
